@@ -308,6 +308,13 @@ def operators(trace, tier, for_c19=False):
                 f = dict(base)
                 f[jp] = json.dumps(_set(meta, key, r)).encode()
                 yield ("meta-set:%s:%s=%s" % (rel, key, json.dumps(r)), f, meta_verdict(key, r, False, meta, others))
+            if key.startswith("ovni.require.") and isinstance(val, str) and val.count(".") == 2:
+                # another major / a larger minor that is the required one modulo 2^32 or 2^64: incompatible however it is read
+                a, b_, c_ = val.split(".")
+                for r in ("%d.%s.%s" % (int(a) + 2 ** 32, b_, c_), "%s.%d.%s" % (a, int(b_) + 2 ** 32, c_), "%d.%s.%s" % (int(a) + 2 ** 64, b_, c_)):
+                    f = dict(base)
+                    f[jp] = json.dumps(_set(meta, key, r)).encode()
+                    yield ("meta-set:%s:%s=%s" % (rel, key, json.dumps(r)), f, "invalid")
         # --- unparsable metadata
         js = base[jp]
         for k in (0, 1, len(js) // 2, len(js) - 2):
